@@ -307,4 +307,15 @@ def missingWhere (allowGlobal : Bool) (s : WhereState) : Bool :=
     | none => true
     | some es => if s.softEnabled then !(es.length > 1) else false
 
+/-- the statement's WHERE state when the guard runs: the chain's conditions, a primary-key condition when the
+    model value carries one (`ConvertToAssignments` / `Delete` / the soft-delete delete clause add it as one more
+    Where expression), then the soft-delete modifier for a soft-delete model that is not Unscoped -/
+def guardState (ops : List (ChainOp × Form)) (pk : Option Atom) (soft : Option Atom) (unscoped : Bool) : WhereState :=
+  let es := chainExprs ops ++ (pk.map Ex.atom).toList
+  let st0 : WhereState := { exprs := if es.isEmpty then none else some es, softEnabled := false }
+  match soft with
+  | some f => softDeleteModify unscoped f st0
+  | none => st0
+
+
 end Gorm
